@@ -78,7 +78,8 @@ void create_one() {
   case O_CHASH: add(t, p_crypto_hash_new((PCryptoHashType)gen(P_CRYPTO_HASH_TYPE_GOST + 1))); break;
   case O_ERR: add(t, p_error_new_literal(1, 2, "some message")); break;
   case O_DIR: { ensure_files(); add(t, p_dir_new((g_tmpdir + (gen(5) == 0 ? "/nodir" : "/dir")).c_str(), &e)); break; }
-  case O_ADDR: add(t, gen(2) ? p_socket_address_new("10.1.2.3", 99) : p_socket_address_new_any(P_SOCKET_FAMILY_INET6, 7)); break;
+  case O_ADDR: { uint32_t r = gen(4);      // IPv6 literals go through the resolver
+                 add(t, r == 0 ? p_socket_address_new("10.1.2.3", 99) : r == 1 ? p_socket_address_new_any(P_SOCKET_FAMILY_INET6, 7) : r == 2 ? p_socket_address_new("2001:db8::17", 99) : p_socket_address_new("::1", 5)); break; }
   case O_SOCK: {
     uint32_t kind = gen(5);
     PSocketFamily fam = gen(2) ? P_SOCKET_FAMILY_INET : P_SOCKET_FAMILY_INET6;
@@ -229,11 +230,11 @@ void root() {
   alloc::fault_flip_enabled = cfg().p[ST_ALLOC] > 0;
   int nplans = (int)gen(3);
   static const struct { int call, err; } fails[] = {{kern::SC_SOCKET, EMFILE}, {kern::SC_SHM_OPEN, ENFILE}, {kern::SC_SHM_OPEN, EACCES}, {kern::SC_FTRUNCATE, ENOSPC}, {kern::SC_FSTAT, EIO},
-                                                    {kern::SC_MMAP, ENOMEM}, {kern::SC_SEM_OPEN, ENOSPC}, {kern::SC_FOPEN, EMFILE}, {kern::SC_OPENDIR, EMFILE}, {kern::SC_DLOPEN, 1},
+                                                    {kern::SC_MMAP, ENOMEM}, {kern::SC_SEM_OPEN, ENOSPC}, {kern::SC_FOPEN, EMFILE}, {kern::SC_OPENDIR, EMFILE}, {kern::SC_DLOPEN, 1}, {kern::SC_GETADDRINFO, 1},
                                                     {kern::SC_ACCEPT, ECONNABORTED}, {kern::SC_BIND, EADDRINUSE}, {kern::SC_LISTEN, EADDRINUSE}, {kern::SC_SETSOCKOPT, ENOPROTOOPT}, {kern::SC_SEM_OPEN, EACCES},
                                                     {kern::SC_CONNECT, ENETUNREACH}, {kern::SC_CONNECT, ECONNREFUSED}, {kern::SC_FCNTL, EINVAL}, {kern::SC_FCNTL, ENOLCK}, {kern::SC_GETSOCKOPT, ENOBUFS}, {kern::SC_GETSOCKNAME, ENOBUFS}};
   describe("allocfail_p=%.2f plans=", cfg().p[ST_ALLOC]);
-  for (int i = 0; i < nplans; i++) { auto &f = fails[gen(21)]; int kth = 1 + (int)gen(f.call == kern::SC_FCNTL ? 12 : 4); kern::plan_fail(f.call, kth, f.err); describe("%s#%d->%d ", kern::call_names[f.call], kth, f.err); }
+  for (int i = 0; i < nplans; i++) { auto &f = fails[gen(sizeof fails / sizeof fails[0])]; int kth = 1 + (int)gen(f.call == kern::SC_FCNTL ? 12 : 4); kern::plan_fail(f.call, kth, f.err); describe("%s#%d->%d ", kern::call_names[f.call], kth, f.err); }
   if (gen(6) == 0) { shim::fail_create_kth = 1 + (int)gen(3); describe("pthread_create#%d ", shim::fail_create_kth); }
   if (gen(8) == 0) { shim::fail_key_create_kth = 1 + (int)gen(3); describe("key_create#%d ", shim::fail_key_create_kth); }
   int steps = (int)gen_range(5, tier ? 60 : 40);
